@@ -269,6 +269,59 @@ def custom(job):
                     out.append({"kind": "F", "draft": d, "behaviour": [kind, repr(val)], "instance": inst, "problem": prob})
                     if len(out) >= 3:
                         return {"failures": out, "tried": tried}
+    # sequences of registrations under one name: the entry in force is exactly the LAST (func, raises) registered; what an
+    # earlier registration listed (or the stock entry listed) is not listed any more unless it is given again
+    class Old(Exception):
+        pass
+
+    class New(Exception):
+        pass
+    stock = sorted(n for n, (fn, r) in jsonschema.FormatChecker().checkers.items() if r)
+    for d, cls in ((3, validators.Draft3Validator), (7, validators.Draft7Validator)):
+        for name in ["custom"] + stock:
+            for second in ("none", "empty", "new"):
+                for raised in (Old, New, ValueError):
+                    tried += 1
+                    chk = jsonschema.FormatChecker()
+                    first_listed = chk.checkers[name][1] if name in chk.checkers else Old
+                    if name == "custom":
+                        chk.checks(name, raises=Old)(lambda x: True)
+
+                    def g(x, raised=raised):
+                        raise raised("boom")
+                    if second == "none":
+                        chk.checks(name)(g)
+                    elif second == "empty":
+                        chk.checks(name, raises=())(g)
+                    else:
+                        chk.checks(name, raises=New)(g)
+                    listed_now = second == "new" and raised is New
+                    for how in ("conforms", "check", "validation"):
+                        try:
+                            if how == "conforms":
+                                r = chk.conforms("x", name)
+                                got = "returned %r" % r
+                                okay = listed_now and r is False
+                            elif how == "check":
+                                chk.check("x", name)
+                                got, okay = "returned", False
+                            else:
+                                errs = list(cls({"format": name}, format_checker=chk).iter_errors("x"))
+                                got = "%d error(s)" % len(errs)
+                                okay = listed_now and len(errs) == 1 and isinstance(errs[0].cause, raised)
+                        except exceptions.FormatError as e:
+                            got, okay = "FormatError", listed_now and how == "check" and isinstance(e.cause, raised)
+                        except raised:
+                            got, okay = "propagated", not listed_now
+                        except Exception as e:      # noqa
+                            got, okay = "raised %s" % type(e).__name__, False
+                        if not okay:
+                            out.append({"kind": "F", "draft": d, "behaviour": ["re-registration", name, second, raised.__name__], "instance": "x",
+                                        "problem": "format %r (first registered with raises=%r) re-registered with raises %s; the function raises %s, which is %s now: %s %s"
+                                        % (name, getattr(first_listed, "__name__", first_listed), second, raised.__name__, "listed" if listed_now else "not listed", how, got)})
+                            break
+                    if len(out) >= 3:
+                        return {"failures": out, "tried": tried}
     # names a checker does not know always pass - also names that OTHER checker objects know (other drafts' spellings),
     # and the validator agrees with its own checker's conforms()
     names = set()
